@@ -9,8 +9,9 @@ open AioMySensors
 
 /-! ### What the generated except-clause tables have to say (re-checked on every build) -/
 
-/-- `except asyncio.CancelledError: break` around the saver's sleep. -/
-theorem sleep_catches_cancel : sleepCatchesCancel = true := by decide
+/-! Whether the saver's sleep has its own `except asyncio.CancelledError: break` is NOT needed: without it the saver
+task ends cancelled instead of returning, and `cancel_save`'s `suppress` absorbs that — the invariant below is proved
+for both readings of `sleepCatchesCancel`. -/
 
 /-- `with contextlib.suppress(asyncio.CancelledError): await task`. -/
 theorem await_suppresses_cancel : awaitSuppressesCancel = true := by decide
@@ -91,9 +92,9 @@ theorem inv_mutate (s : Sys) (hm : s.main = .body) (h : Inv s) : Inv { s with re
 theorem inv_saver (s : Sys) (lands : Bool) (hr : saverRunnable s = true) (h : Inv s) : Inv (saverStep s lands) := by
   obtain ⟨f, main, saver, cancelReq, now, t0, reg, snap, fsnap, file, saveStarts, loaded, started, entered,
     disconnectTried, finalSaveDone, pending, outcome⟩ := s
+  rcases hsc : sleepCatchesCancel with _|_ <;>
   rcases main with _|_|_|_|_|_|_|⟨_|_|_|_⟩|_ <;> rcases saver with _|_|⟨_|_|_|_⟩|w|_|_|_ <;>
-    simp_all [Inv, saverStep, saverRunnable, beginSave, Final, StopCtx, SaverPc.alive,
-      sleep_catches_cancel, save_passes_cancel]
+    simp_all [Inv, saverStep, saverRunnable, beginSave, Final, StopCtx, SaverPc.alive, save_passes_cancel]
 
 theorem inv_main (s : Sys) (hr : mainRunnable s = true) (h : Inv s) : Inv (mainStep s) := by
   obtain ⟨f, main, saver, cancelReq, now, t0, reg, snap, fsnap, file, saveStarts, loaded, started, entered,
@@ -280,8 +281,8 @@ theorem saver_finishes (s : Sys) (b : Bool) (hi : Inv s) (hm : s.main = .stopAwa
     disconnectTried, finalSaveDone, pending, outcome⟩ := s
   simp only at hm
   subst hm
-  rcases saver with _|_|⟨_|_|_|_⟩|w|_|_|_ <;>
-    simp_all [Inv, step, saverStep, saverRunnable, SaverPc.alive, sleep_catches_cancel, save_passes_cancel]
+  rcases hsc : sleepCatchesCancel with _|_ <;> rcases saver with _|_|⟨_|_|_|_⟩|w|_|_|_ <;>
+    simp_all [Inv, step, saverStep, saverRunnable, SaverPc.alive, save_passes_cancel]
 
 theorem completes (s : Sys) (hi : Inv s) : ∃ cs, (run s cs).main = .finished := by
   generalize hn : rank s.main = n
